@@ -67,6 +67,8 @@ def proto_render(kind: str, obj) -> str:
 
 def expected_found_render(kind: str, proto: str, fields: str) -> str:
     """what the item `copy(prototype)` + setattr(fields) looks like (the model keeps the three parts)"""
+    if proto == "@":  # an item taken over from an observed state: `fields` already is its rendering
+        return fields
     k, value = json.loads(proto)
     d = dataclasses.asdict(make_proto(k, value))
     d.update(json.loads(fields))
